@@ -62,6 +62,7 @@ func runHNSWHistory(r *rand.Rand, p hnswParams, o hnswOpts, t *Trace) *Case {
 	var resident []liveVec
 	removed := map[uint32]bool{}
 	nextID := uint32(1)
+	var forced []float32 // query of the next search (the vector of a just-removed entry point)
 	dump := func() {
 		st := comet.VerifHNSWSnapshot(idx)
 		ops = append(ops, func(c *Case) { dumpHNSW(c, st) })
@@ -80,6 +81,9 @@ func runHNSWHistory(r *rand.Rand, p hnswParams, o hnswOpts, t *Trace) *Case {
 		}
 		if o.smallOnly && len(resident) >= 2*p.m && x < 40 {
 			x = 45 // no more adds: remove / flush / search instead
+		}
+		if forced != nil {
+			x = 99 // the search that follows the removal of a whole neighbourhood
 		}
 		switch {
 		case x < 40: // add
@@ -144,6 +148,35 @@ func runHNSWHistory(r *rand.Rand, p hnswParams, o hnswOpts, t *Trace) *Case {
 		case x < 56: // remove
 			var id uint32
 			st := comet.VerifHNSWSnapshot(idx)
+			if o.adversary && len(st.Nodes) > 0 && r.Intn(6) == 0 {
+				// the entry point AND its whole bottom-layer neighbourhood (no flush), then a search right
+				// at the removed entry point: the walk must pass through the removed region to live vectors
+				victims := []uint32{st.EntryPoint}
+				for _, n := range st.Nodes {
+					if n.ID == st.EntryPoint && len(n.Edges) > 0 {
+						victims = append(victims, n.Edges[0]...)
+					}
+				}
+				for _, vid := range victims {
+					if removed[vid] {
+						continue
+					}
+					vid := vid
+					e := idx.Remove(*comet.NewVectorNodeWithID(vid, nil))
+					code := errCode(e)
+					ops = append(ops, func(c *Case) { c.N(2).U(uint64(vid)).N(code) })
+					if code == 0 {
+						removed[vid] = true
+					}
+				}
+				for _, lv := range resident {
+					if lv.id == st.EntryPoint {
+						forced = cloneVec(lv.raw)
+					}
+				}
+				t.Stat("hnsw.remove_entry_neighbourhood")
+				continue
+			}
 			switch {
 			case o.adversary && len(st.Nodes) > 0 && r.Intn(3) == 0:
 				id = st.EntryPoint
@@ -237,7 +270,13 @@ func runHNSWHistory(r *rand.Rand, p hnswParams, o hnswOpts, t *Trace) *Case {
 			ks := []int{-1, 0, 1, 2, 3, n, n + 1, 100}
 			k := ks[r.Intn(len(ks))]
 			thr := float32(0)
-			switch r.Intn(10) {
+			thrCase := r.Intn(10)
+			if forced != nil {
+				nq, qs, nodes, docids, k, thrCase = 1, [][]float32{forced}, nil, nil, 3, 9
+				forced = nil
+				t.Stat("hnsw.search_at_removed_entry_point")
+			}
+			switch thrCase {
 			case 0:
 				if len(resident) > 0 && nq > 0 && len(qs[0]) == p.dim {
 					pq, e1 := dist.Preprocess(cloneVec(qs[0]))
